@@ -190,6 +190,37 @@ func runC04(cx *CheckCtx) {
 		}
 	}
 	// ---- delete path
+	// count: one per key of the scan of the registry, starting at 0
+	if m := cx.method("container", "Count"); m != nil {
+		a := cx.run(m)
+		tb := a.tb
+		ok := len(a.Exits()) > 0
+		for _, ex := range a.Exits() {
+			if len(ex.Results) != 1 || ex.Results[0].Op != "phi" {
+				ok = false
+				continue
+			}
+			c := ex.Results[0]
+			zero, step := false, false
+			for _, al := range tb.Alts(c) {
+				if n, isC := al.IntConst(); isC && n == 0 {
+					zero = true
+				} else if al == tb.binop(token.ADD, c, tb.constInt(1), intType) {
+					step = true
+				} else {
+					ok = false
+				}
+			}
+			exh := false
+			for _, f := range a.unitFacts(ex.State) {
+				if f.kind == KB && !f.pos && f.A.Op == "iternext" && f.A.Args[0].Op == "find" && keyFamily(f.A.Args[0].Args[0]) == "x" {
+					exh = true
+				}
+			}
+			ok = ok && zero && step && exh
+		}
+		cx.decide(ok, "getter-key", "container.Count", "0 plus one per key of the exhausted scan of the registry", "count() is not the number of registered containers", w.pos(m.Fn.Pos()))
+	}
 	// putMeta: the meta flag of the id is written exactly when metaOnChain is set
 	if m := cx.method("container", "PutMeta"); m != nil {
 		a := cx.run(m)
@@ -384,6 +415,14 @@ func runC04(cx *CheckCtx) {
 			checkNotifyEquiv(cx, a, "container.SetEACL/SetEACLSuccess", notif, put)
 			cx.decide(containerExistsAt(a, put.In, id), "exists-guard", "container.SetEACL", "stores only for an existing container", "an eACL table can be stored for a container id that is not live: it survives as a trace and reappears if the id is ever registered", put.Where(w))
 			v := unserialize(put.Args[2])
+			// the id is the container id field of the table: eACL[2+eACL[1]+4 : … + 32]
+			{
+				tb := a.tb
+				e := paramTerm(tb, m, "eACL")
+				off := tb.binop(token.ADD, tb.binop(token.ADD, tb.constInt(2), tb.mk("index", "", 0, e, tb.constInt(1)), intType), tb.constInt(4), intType)
+				want := tb.mk("slice", "", 0, e, off, tb.binop(token.ADD, off, tb.constInt(32), intType))
+				cx.decide(a.Canon(put.In, id) == want || id == want, "id-derivation", "container.SetEACL/id", "the table is stored under its own container id field eACL[6+eACL[1] : 38+eACL[1]]", "the eACL table is stored under "+id.pretty()+", not under the container id encoded in it", put.Where(w))
+			}
 			cx.decide(a.tb.field(v, "Value") == paramTerm(a.tb, m, "eACL"), "id-derivation", "container.SetEACL/value", "stores the submitted table", "the stored eACL value is "+v.pretty(), put.Where(w))
 		}
 	}
